@@ -76,6 +76,8 @@ HAND_DOCS = [
     "'k e': &v a\nx.y: [*v, {'k e': *v}]\n",
     # no anchors at all, but keys/values equal to each other (key vs value on one path)
     "a: a\nb: {a: {a: 1, b: [a, {}, []]}}\nx: [b, {x: x}]\n",
+    # an anchor that lives below an aliased key, its alias elsewhere (expansion under -A discards the original)
+    "p:\n  x: {&v k: 1}\n  y: {*v : [&a a]}\n  z: [*a, b]\n",
     # sequences in sequences below keys (expansion has to reach the innermost leaves)
     "a: [[a, [b]], {x: [1, {b: a}]}]\nb: {x: [[x]], 1: [[]]}\n",
 ]
@@ -390,6 +392,9 @@ INCOMPLETE_TAGS = ("root-scalar", "set-in-seq", "merged", "alias-key", "alias-va
 
 def tag_suffix(tags, which):
     t = [x for x in which if x in tags]
+    for dominant in ("root-scalar", "set-in-seq"):      # these name the mechanism on their own
+        if dominant in t:
+            t = [dominant]
     return ("/" + "+".join(t)) if t else ""
 
 
